@@ -97,7 +97,23 @@ func (c *Ctx) Graph() *ModGraph {
 					for i := 0; i < ms.Len(); i++ {
 						if ms.At(i).Obj().Name() == method {
 							if f := c.Prog.MethodValue(ms.At(i)); f != nil {
-								out = append(out, f)
+								// synthetic wrappers (pointer-receiver wrapper of a value method, promotion through an
+								// embedded field) are replaced by the declared method they forward to; a wrapper that
+								// re-dispatches through an embedded interface adds no new target
+								if f.Synthetic != "" {
+									f = forwardTarget(c, f)
+								}
+								if f != nil {
+									dup := false
+									for _, x := range out {
+										if x == f {
+											dup = true
+										}
+									}
+									if !dup {
+										out = append(out, f)
+									}
+								}
 							}
 						}
 					}
@@ -306,4 +322,20 @@ func (c *Ctx) entryPoints() (map[string]*ssa.Function, []string) {
 		missing = append(missing, "cli sign closure")
 	}
 	return out, missing
+}
+
+// forwardTarget: the declared module method a synthetic wrapper statically calls, or nil.
+func forwardTarget(c *Ctx, f *ssa.Function) *ssa.Function {
+	if f.Blocks == nil {
+		return nil
+	}
+	for _, ci := range callsIn(f) {
+		if callee := ci.Common().StaticCallee(); callee != nil && c.InModule(callee) && callee.Blocks != nil {
+			if callee.Synthetic != "" {
+				return forwardTarget(c, callee)
+			}
+			return callee
+		}
+	}
+	return nil
 }
